@@ -10,7 +10,7 @@ sys.path.insert(0, os.path.join(os.path.dirname(os.path.abspath(__file__)), ".."
 import diff_engine  # noqa: E402
 from gen_engine import dumps  # noqa: E402
 
-LEAN_MODULES = ["KmipModel.Props.C10"]
+LEAN_MODULES = ["KmipModel.Props.C10", "KmipModel.Props.C10Engine"]
 RULE = ("workloads of 2-4 session threads with different identities and protocol versions, 2-3 requests each, all "
         "sharing ONE real KmipEngine; context switches are forced (tiny switch interval) and additionally injected at "
         "the lock, the access-control choke point, every commit and the protocol-version switch (seeded yields); the "
